@@ -3,6 +3,7 @@ package rules
 import (
 	"fmt"
 	"go/token"
+	"go/types"
 	"strings"
 
 	"golang.org/x/tools/go/ssa"
@@ -45,6 +46,11 @@ func ruleStatsCounters(c *core.Ctx, rule string) {
 				pos := c.P.Pos(st.Pos())
 				c.Universe(rule+" record counts", fname+" "+fld+" ("+pos+")")
 				cell := counterCell(st.Val, 3)
+				if cell == nil {
+					if handled := fieldCounter(c, rule, fname, fld, pos, st.Val, cbs); handled {
+						continue
+					}
+				}
 				if cell == nil {
 					c.Violate(rule, fname, fld, pos, fmt.Sprintf("%s is %s, not a counter incremented once per record the parser delivers: records with a repeated heading, or the number of callbacks, may differ from it", fld, st.Val.String()), nil)
 					continue
@@ -209,4 +215,121 @@ func returnedCell(call *ssa.Call, idx, depth int) *ssa.Alloc {
 		}
 	}
 	return cell
+}
+
+// fieldCounter handles a record count kept in a field of a state object whose
+// method is the parser callback (span.count with span.visit as callback): every
+// store into that field is the initial 0 or a +1 inside a ParseCallback, and the
+// callback increments it exactly once per delivered record and never on an error.
+func fieldCounter(c *core.Ctx, rule, fname, fld, pos string, v ssa.Value, cbs map[*ssa.Function]bool) bool {
+	ld, ok := v.(*ssa.UnOp)
+	if !ok || ld.Op != token.MUL {
+		return false
+	}
+	fa, ok := ld.X.(*ssa.FieldAddr)
+	if !ok {
+		return false
+	}
+	pt, ok := fa.X.Type().Underlying().(*types.Pointer)
+	if !ok {
+		return false
+	}
+	cname := fieldName(fa.X.Type(), fa.Field)
+	var incFns []*ssa.Function
+	okAll := true
+	for _, fn := range c.P.Funcs {
+		for _, b := range fn.Blocks {
+			for _, in := range b.Instrs {
+				st, ok := in.(*ssa.Store)
+				if !ok {
+					continue
+				}
+				fa2, ok := st.Addr.(*ssa.FieldAddr)
+				if !ok || fa2.Field != fa.Field {
+					continue
+				}
+				if pt2, ok := fa2.X.Type().Underlying().(*types.Pointer); !ok || !types.Identical(pt2.Elem(), pt.Elem()) {
+					continue
+				}
+				switch val := st.Val.(type) {
+				case *ssa.Const:
+					if val.Int64() != 0 {
+						okAll = false
+					}
+				case *ssa.BinOp:
+					one, isC := val.Y.(*ssa.Const)
+					if val.Op != token.ADD || !isC || one.Int64() != 1 {
+						okAll = false
+					} else {
+						incFns = append(incFns, fn)
+					}
+				default:
+					okAll = false
+				}
+			}
+		}
+	}
+	if !okAll || len(incFns) == 0 {
+		c.Violate(rule, fname, fld, pos, fld+" is read from the field "+cname+", which is fed by something other than a counter that starts at 0 and is incremented by 1", nil)
+		return true
+	}
+	bad := ""
+	for _, inc := range incFns {
+		// the callback is the method itself or the method value wrapping it
+		var cb *ssa.Function
+		for f := range cbs {
+			if f == inc {
+				cb = f
+			}
+			if strings.HasSuffix(f.Name(), "$bound") && f.Object() != nil && inc.Object() != nil && f.Object() == inc.Object() {
+				cb = f
+			}
+		}
+		if cb == nil {
+			bad = "the counter field " + cname + " is incremented outside a parser callback (" + core.FuncName(inc) + ")"
+			continue
+		}
+		for _, errCase := range []bool{false, true} {
+			x := newExec(c)
+			x.Hooks.Store = func(x *absint.Exec, s *absint.State, in *ssa.Store, addr, val absint.Value) {
+				if p, ok := addr.(absint.Ptr); ok && strings.HasSuffix(p.Loc, "·"+cname) {
+					switch s.Data["inc"] {
+					case "":
+						s.SetData("inc", "1")
+					default:
+						s.SetData("inc", "many")
+					}
+				}
+			}
+			var st *absint.State
+			if errCase {
+				e := absint.Sym{Name: "perr"}
+				st = x.NewState(cb, []absint.Value{absint.Const{Nil: true}, e}, nil)
+				x.AssumeNil(st, e, false)
+			} else {
+				nd := absint.Sym{Name: "node"}
+				st = x.NewState(cb, []absint.Value{nd, absint.Const{Nil: true}}, nil)
+				x.AssumeNil(st, nd, false)
+			}
+			terms := x.Run(st)
+			account(c, x, rule, cb)
+			for _, tm := range terms {
+				inc := tm.State.Data["inc"]
+				if errCase && inc != "" {
+					bad = "the counter is incremented when the parser reports an error (" + core.FuncName(cb) + ")"
+				}
+				if !errCase && tm.Kind == "return" && len(tm.Ret) == 2 {
+					if stop, known := boolOf(tm.Ret[0]); known && !stop && inc != "1" {
+						bad = fmt.Sprintf("a delivered record increments the counter %q times on some path (%s)", inc, core.FuncName(cb))
+					}
+				}
+			}
+		}
+	}
+	if bad != "" {
+		c.Violate(rule, fname, fld, pos, bad, nil)
+	} else {
+		c.Discharge(rule, fname, fld, pos, "a counter field of the callback's state object, incremented exactly once per record delivered with a nil error, never on an error")
+	}
+	return true
 }
